@@ -452,12 +452,13 @@ class Facts:
     path.  Assignments kill everything mentioning the assigned root name; assignments of
     a constant to a plain name are remembered."""
 
-    def __init__(self, d=None, clauses=None):
+    def __init__(self, d=None, clauses=None, defs=None):
         self.d: Dict[str, bool] = d or {}
         self.clauses: List[frozenset] = clauses or []
+        self.defs: Dict[str, ast.AST] = defs or {}      # flag variable -> defining boolean expression
 
     def copy(self):
-        return Facts(dict(self.d), list(self.clauses))
+        return Facts(dict(self.d), list(self.clauses), dict(self.defs))
 
     def known(self, expr) -> Optional[bool]:
         if isinstance(expr, str):
@@ -537,6 +538,12 @@ class Facts:
         if k in self.d and self.d[k] != pol:
             return False
         self.d[k] = pol
+        if isinstance(e, ast.Name) and e.id in self.defs:
+            dexpr = self.defs.pop(e.id)          # expand the flag's definition once
+            ok = self._add(dexpr, pol)
+            self.defs[e.id] = dexpr
+            if not ok:
+                return False
         return self._propagate()
 
     def _propagate(self) -> bool:
@@ -562,6 +569,8 @@ class Facts:
         for k in [k for k in self.d if pat.search(k)]:
             del self.d[k]
         self.clauses = [c for c in self.clauses if not any(pat.search(a) for (a, _t) in c)]
+        for k in [k for k, v in self.defs.items() if k == root or pat.search(unparse(v))]:
+            del self.defs[k]
 
     def after_stmt(self, st) -> 'Facts':
         targets = []
@@ -595,10 +604,12 @@ class Facts:
             elif isinstance(value, (ast.List, ast.Dict, ast.Set, ast.Tuple)) and \
                     not getattr(value, 'elts', getattr(value, 'keys', [])):
                 f.d[name] = False        # empty container is falsy
-            elif isinstance(value, (ast.BoolOp, ast.UnaryOp, ast.Compare, ast.Name)):
-                v = self._eval(value)
+            elif isinstance(value, (ast.BoolOp, ast.UnaryOp, ast.Compare, ast.Name, ast.Call, ast.Attribute)):
+                v = self._eval(value) if isinstance(value, (ast.BoolOp, ast.UnaryOp, ast.Compare, ast.Name)) else None
                 if v is not None:
                     f.d[name] = v
+                if name not in {n.id for n in ast.walk(value) if isinstance(n, ast.Name)}:
+                    f.defs[name] = value
         return f
 
     def after_iter(self, forst, entered: bool) -> Optional['Facts']:
